@@ -670,7 +670,7 @@ def cases_full(ctx):
         yield from enum_tables(V, sos, 2, inf_variants=1, T=3)
     # (d) seeded samples beyond the exhaustive bound: order 4 on two symbols, order 3 on three, order <= 4 random
     rng = random.Random(ctx.seed * 7919 + 1)
-    n4 = 3000 if ctx.quick else 60000
+    n4 = 1500 if ctx.quick else 60000
     for _ in range(n4):
         V, sos = rng.choice(_configs2())
         nb = sum(_n_grams(V, sos, 4))
@@ -678,7 +678,7 @@ def cases_full(ctx):
         if not p >> (nb - 16):
             p |= 1 << (nb - 1 - rng.randrange(16))
         yield {"V": V, "sos": sos, "N": 4, "T": 5, "present": p, "neginf": _inf_mask(p, nb, 1) if rng.random() < 0.5 else 0}
-    for _ in range(1500 if ctx.quick else 40000):
+    for _ in range(1000 if ctx.quick else 40000):
         V, sos = rng.choice([(3, 0), (3, 2), (2, 2), (2, -1), (3, 3), (4, 1)])
         N = rng.choice([3, 3, 4] if V + (not 0 <= sos < V) <= 3 else [2, 3])
         nb = sum(_n_grams(V, sos, N))
@@ -697,7 +697,7 @@ def cases_full(ctx):
         for _ in range(30000):
             yield random_table_case(rng)
     else:
-        for _ in range(1500):
+        for _ in range(1000):
             yield random_table_case(rng)
 
 
@@ -708,11 +708,11 @@ def reduced_tables(ctx, salt):
     for V, sos in _configs2():
         yield from enum_tables(V, sos, 1, three_state_upto=1, T=3)
         yield from enum_tables(V, sos, 2, stride=1 if not ctx.quick else 1, inf_variants=1, T=4)
-    stride = 48 if ctx.quick else 6
+    stride = 256 if ctx.quick else 6
     for V, sos in _configs2():
         yield from enum_tables(V, sos, 3, stride=stride, offset=ctx.seed + salt, inf_variants=1, T=4)
     rng = random.Random(ctx.seed * 104729 + salt)
-    for _ in range(250 if ctx.quick else 6000):
+    for _ in range(120 if ctx.quick else 6000):
         V, sos = rng.choice(_configs2() + [(3, 0), (2, 2), (2, -1)])
         N = 4 if len(_tokens(V, sos)) == 2 else rng.choice([2, 3])
         nb = sum(_n_grams(V, sos, N))
@@ -721,7 +721,7 @@ def reduced_tables(ctx, salt):
         if not p >> (nb - top):
             p |= 1 << (nb - 1 - rng.randrange(top))
         yield {"V": V, "sos": sos, "N": N, "T": 5 if len(_tokens(V, sos)) == 2 else 3, "present": p, "neginf": _inf_mask(p, nb, 3) if rng.random() < 0.5 else 0}
-    for _ in range(100 if ctx.quick else 3000):
+    for _ in range(60 if ctx.quick else 3000):
         c = random_table_case(rng, maxV=3)
         c["T"] = min(c["T"], 4)
         if "hists" in c:
@@ -761,7 +761,7 @@ def cases_wide(ctx):
     for name, c in list(REGRESSIONS.items()) + ([] if ctx.quick else list(REGRESSIONS_THOROUGH.items())):
         yield dict(c, regression=name)
     # level 1 + level 2 around 2**8: V symbols, c bigrams; every placement of the children
-    for s in range(253, 260):
+    for s in (range(254, 259) if ctx.quick else range(253, 260)):
         for shape in ("first", "last", "spread"):
             for sos_out in (False, True):
                 for c in (56, 20, 128 if s % 2 == 0 else 100):
@@ -771,7 +771,7 @@ def cases_wide(ctx):
                         continue
                     yield _wide(V, V if sos_out else 0, 2, [c], shape, 2, seed + s, T=2, B=32)
     # level 2 + level 3 (3 + 4) around 2**8 in a trigram (4-gram) model over few symbols; with c = all tokens the pair is the widest of the table
-    for s in range(253, 260):
+    for s in (range(254, 259) if ctx.quick else range(253, 260)):
         for shape in ("first", "last", "spread"):
             for V, sos, c in ((16, 3, 6), (15, 15, 12), (20, -1, 3), (16, 0, 16), (15, -1, 16), (8, 8, 9)):
                 if s - c <= (V + (0 if 0 <= sos < V else 1)) ** 2:
@@ -964,14 +964,14 @@ def run_bounded(ctx):
                       "SAMPLED (seeded): %d order-4 tables on 2 symbols (histories 0..5), %d order 2..4 tables on 3..5 symbols, %d random-float tables order 1..4, V 1..4, "
                       "sos in {in-vocab, V, -1, V+3, 1000}%s" % (
                           "every 8th subset (residue chosen by VERIF_SEED; NOT exhaustive at order 3 in this tier)" if q else "every subset", 1 if q else 3, "(3,1),(2,2)" if q else "6 (V,sos) pairs",
-                          3000 if q else 60000, 1500 if q else 40000, 1500 if q else 30000, "" if q else "; plus orders 1-2 three-state x every trigram subset for (2,0),(1,1)"),
+                          1500 if q else 60000, 1000 if q else 40000, 1000 if q else 30000, "" if q else "; plus orders 1-2 three-state x every trigram subset for (2,0),(1,1)"),
                 text="lm(hist)[t, b, w] == Katz back-off recursion on the dict (present-and-finite -> listed value; else back-off of the context (0 if absent) + value for "
                      "the context minus its oldest token; left-padded with sos), for every prefix of every history",
                 nontrivial=_sparse, chunk=256, functions=fn)
     ctxb.bounded("C06.katz.chunked", check_chunked, cases_chunked(ctx),
                 bound="tables: 1 symbol orders 1..4 three-state; 2 symbols order 1 three-state, order 2 every subset (+ -inf pattern), order 3 every %d-th subset of each (V,sos); %d sampled order 2..4 "
                       "tables, %d random-float tables; per table EVERY T in 0..4 (0..5 for sampled order 4), EVERY chunk_size in 1..T+2, contiguous and transposed-view hist, all histories of length T"
-                      % (48 if q else 6, 250 if q else 6000, 100 if q else 3000),
+                      % (256 if q else 6, 120 if q else 6000, 60 if q else 3000),
                 text="calc_full_log_probs_chunked(hist, {}, chunk_size) == oracle at all positions, for every chunk size",
                 nontrivial=_sparse, chunk=16, functions=["_lm.LookupLanguageModel.calc_full_log_probs_chunked", "_lm._lookup_calc_idx_log_probs"])
     ctxb.bounded("C06.katz.idx", check_idx, cases_idx(ctx),
@@ -985,10 +985,10 @@ def run_bounded(ctx):
                 text="a freshly constructed instance that loads the saved state gives the oracle's numbers (and bit-identical output, max_ngram inferred)",
                 nontrivial=_sparse, chunk=32, functions=["_lm.LookupLanguageModel.load_state_dict", "_lm.LookupLanguageModel._infer_max_direct_descendants"])
     ctxb.bounded("C06.katz.wide_levels", check_wide, cases_wide(ctx),
-                bound="named regression witnesses of the repaired offsets-width defect; generated closed tables: (#k-grams + #(k+1)-grams) in 253..259 for k=1 (order 2, V up to 239), k=2 (order 3), k=3 (order 4) with the (k+1)-grams all under the "
+                bound="named regression witnesses of the repaired offsets-width defect; generated closed tables: (#k-grams + #(k+1)-grams) in %s for k=1 (order 2, V up to 239), k=2 (order 3), k=3 (order 4) with the (k+1)-grams all under the "
                       "first / last k-gram or spread; levels of 300..1600 nodes; V in {254,255,256,300} (ids wider than uint8)%s; 32 listed-context + 16 random histories of length T<=3 (+ all "
                       "contexts for order 2); full, chunked, per-element idx, reload" % (
-                          "" if q else "; level sums 32765..32770 (order 3, V=200), levels of 33000-34000 nodes, 60 random shapes"),
+                          "254..258" if q else "253..259", "" if q else "; level sums 32765..32770 (order 3, V=200), levels of 33000-34000 nodes, 60 random shapes"),
                 text="same contract as C06.katz.full on tables that cross the integer widths chosen for offsets/ids (bounded stand-in for C06.trie.offset_types)",
                 chunk=1, functions=["_lm.LookupLanguageModel._build_trie"])
     fa = ["_parsing.parse_arpa_lm"]
